@@ -113,6 +113,15 @@ fn run_history(cx: &Ctx, hist: &[Op]) -> (Vec<StepObs>, String) {
                 }
                 model[p] = Some(ident);
                 if let Err(e) = cx.sentinel() {
+                    // an attributed connection that the proxy accepted and dropped without answering: if its kernel record
+                    // is still in the map, the proxy let a connection go without consuming its record (anything that later
+                    // connects from that port would inherit it); otherwise the harness lost its footing
+                    if cx.w.audit_present(SENTINEL_PORT) {
+                        problems.push(("record-not-consumed-at-accept:connection-dropped".into(), format!("an attributed connection was accepted and dropped without an answer ({e}) and its kernel record (source port {SENTINEL_PORT}) is still in the audit map")));
+                        cx.w.clear_audit();
+                        out.push(StepObs { problems });
+                        return (out, "aborted".into());
+                    }
                     vcommon::result::machinery(&e);
                 }
                 // the record is consumed when the connection is accepted
@@ -394,12 +403,15 @@ fn main() {
             for i in 0..3 {
                 cs.push(cx.w.connect(Some(ports[i]), cx.rec(ids[i]).as_ref()).unwrap());
             }
-            let _ = cx.sentinel();
+            if cx.sentinel().is_err() && cx.w.audit_present(SENTINEL_PORT) {
+                res.violation("record-not-consumed-at-accept:connection-dropped", &format!("an attributed connection was accepted and dropped without an answer and its kernel record (source port {SENTINEL_PORT}) is still in the audit map"), json!({"family": "concurrent", "order": seq}));
+                cx.w.clear_audit();
+            }
             // send all six requests in the chosen order without waiting, then read
             let cur = cx.w.hosts.cursors();
             for &i in seq {
                 let tag = format!("/a/c{i}");
-                cs[i].send(&build_request("GET", &tag, &[("Host", b"h")], None, None)).unwrap();
+                let _ = cs[i].send(&build_request("GET", &tag, &[("Host", b"h")], None, None)); // a refused send shows as a missing response below
             }
             let mut statuses = vec![Vec::new(); 3];
             for i in 0..3 {
@@ -432,6 +444,65 @@ fn main() {
             }
         }
     }
+
+    // ---- family: one port number on two local addresses. Connection A comes straight to the listener from
+    // 127.0.0.1:p (the kernel hook never saw it); connection B is a diverted connection from 127.0.0.2:p, for which
+    // the kernel wrote its record under (TCP, p). Whatever the order in which the record is written and the two
+    // connections reach the listener, A is unattributed and B is served with its own identity.
+    let mut two_addr_cases = 0u64;
+    {
+        let p2 = 41777u16;
+        let alice = cx.rec(Ident::Alice).unwrap();
+        let req = build_request("GET", "/a/x", &[("Host", b"h"), ("Metadata", b"true")], None, None);
+        let open = |ip: [u8; 4]| vcommon::rawhttp::connect_from(ip, Some(p2), world::PROXY.parse().unwrap()).map(Client::new);
+        let ask = |c: &mut Client| c.send(&req).map_err(|e| e.to_string()).and_then(|_| c.read_response(false, Duration::from_secs(10)).map(|m| m.status()));
+        // order 1: A is accepted (and has looked for its record) before B's record exists; gaps around the retry windows
+        // a lookup could plausibly use
+        for gap_ms in [0u64, 2, 4, 6, 10, 12, 25] {
+            cx.w.clear_audit();
+            let cur = cx.w.hosts.cursors();
+            let mut a = open([127, 0, 0, 1]).unwrap();
+            let _ = cx.sentinel();
+            std::thread::sleep(Duration::from_millis(gap_ms));
+            cx.w.inject_audit(p2, &alice);
+            // B's record exists from the moment its connect enters the kernel; its SYN reaches the listener a little
+            // later (alternating: at once / after 8 ms, as when the caller's thread is descheduled in between)
+            if gap_ms % 4 == 2 {
+                std::thread::sleep(Duration::from_millis(8));
+            }
+            let mut b = open([127, 0, 0, 2]).unwrap();
+            let sb = ask(&mut b);
+            let sa = ask(&mut a);
+            two_addr_cases += 1;
+            let upstream: usize = cx.w.hosts.all().iter().enumerate().map(|(i, h)| h.requests_since(cur[i]).iter().filter(|(_, m)| m.target() == "/a/x").count()).sum();
+            if sa != Ok(421) || sb != Ok(200) || upstream != 1 {
+                res.violation("same-port-two-addresses:record-written-after-the-direct-connection", &format!("direct connection 127.0.0.1:{p2} accepted first, then (after {gap_ms} ms) the record of the diverted connection 127.0.0.2:{p2} was written: direct connection got {:?} (want 421), diverted connection got {:?} (want 200), {upstream} request(s) upstream", sa, sb), json!({"family": "same-port-two-addresses", "order": "direct connection first", "gap_ms": gap_ms}));
+            }
+            a.close();
+            b.close();
+            let _ = cx.sentinel();
+        }
+        // order 2: B's record is written (its connect entered the kernel) but A reaches the listener first
+        {
+            cx.w.clear_audit();
+            let cur = cx.w.hosts.cursors();
+            cx.w.inject_audit(p2, &alice);
+            let mut a = open([127, 0, 0, 1]).unwrap();
+            let sa = ask(&mut a);
+            let mut b = open([127, 0, 0, 2]).unwrap();
+            let sb = ask(&mut b);
+            two_addr_cases += 1;
+            let upstream: usize = cx.w.hosts.all().iter().enumerate().map(|(i, h)| h.requests_since(cur[i]).iter().filter(|(_, m)| m.target() == "/a/x").count()).sum();
+            if sa != Ok(421) || sb != Ok(200) || upstream != 1 {
+                res.violation("same-port-two-addresses:record-written-before-the-direct-connection", &format!("the record of the diverted connection 127.0.0.2:{p2} was written, then the direct connection 127.0.0.1:{p2} reached the listener first: direct connection got {:?} (want 421), diverted connection got {:?} (want 200), {upstream} request(s) upstream", sa, sb), json!({"family": "same-port-two-addresses", "order": "record first, direct connection accepted first"}));
+            }
+            a.close();
+            b.close();
+            cx.w.clear_audit();
+            let _ = cx.sentinel();
+        }
+    }
+    res.cov("same_port_two_addresses_cases", two_addr_cases);
 
     // ---- contention family (sampled, labelled): the BpfObject mutex is busy while connections are accepted
     let n_cont = if thorough { 120 } else { 30 };
@@ -486,7 +557,7 @@ fn main() {
     res.cov("contention_family_connections_sampled", n_cont as u64);
     res.cov("exhaustive", !stopped_early);
     res.cov("stopped_early_after_violations", stopped_early);
-    res.cov("rule", format!("BFS over histories of open(port in 2 ports, record in {{none, alice->IMDS, {}root->WireServer with alice's process id, root->a destination that never completes the TCP handshake (open/close only)}}) / request / close (RST close, immediate port reuse) to depth {depth}, deduplicated on (reference state, kernel audit-map content, served-a-request flags); every history is executed on the real proxy from a clean state; + 3 attributed connections x 2 pipelined requests in {} send orders; + a SAMPLED family in which a contender thread keeps the BpfObject mutex busy while {n_cont} attributed connections are accepted", if thorough { "bob->IMDS, " } else { "" }, orders));
+    res.cov("rule", format!("BFS over histories of open(port in 2 ports, record in {{none, alice->IMDS, {}root->WireServer with alice's process id, root->a destination that never completes the TCP handshake (open/close only)}}) / request / close (RST close, immediate port reuse) to depth {depth}, deduplicated on (reference state, kernel audit-map content, served-a-request flags); every history is executed on the real proxy from a clean state; + 3 attributed connections x 2 pipelined requests in {} send orders; + one port number on two local addresses (a direct connection from 127.0.0.1:p and a diverted one from 127.0.0.2:p, record written 0..25 ms after the direct connection was accepted, the diverted connection arriving at once or 8 ms after its record; or record written before the direct connection) + a SAMPLED family in which a contender thread keeps the BpfObject mutex busy while {n_cont} attributed connections are accepted", if thorough { "bob->IMDS, " } else { "" }, orders));
     res.assume("single-threaded subject runtime: a sentinel round trip after each open orders the harness after the accept-time lookup; server-side task interleavings beyond that are not enumerated");
     res.assume("the lock-contention family is sampling (the std mutex cannot be scheduled), labelled as such");
     std::process::exit(res.finish());
